@@ -1,8 +1,8 @@
 package rules
 
 import (
-	"sort"
 	"go/types"
+	"sort"
 
 	"conduitlint/kit"
 
@@ -11,9 +11,9 @@ import (
 
 func init() {
 	register(&Property{
-		ID:  "C06",
-		Run: runC06,
-		Explanation: "Decides the structural clauses of a draining graceful stop: (R1) v1 source and destination nodes register, on the Open success edge, a deferred teardown that waits for all open messages first (destination: stop → wait → teardown), every tracked message is added to the tracker before it is sent on, and status handlers run newest-first so the tracker's Done is the last step of an ack; (R2) every Open has its Close/Teardown on all exits (DLQ handler, processor node, v2 worker rollback, idempotent source teardown under its mutex); (R3) StopAndWait = Stop[ok] → WaitPipeline[ok] → WaitPersisted → nil in both engines; (R4) v2 Worker.Stop takes the processing lock before arming the stop flag and tearing the source down, and a batch is discarded only after the lock was acquired; (R5 = C02.R7) Source.Teardown's flush → drain → stop order; (R6) the stop position is fetched and recorded before the stop control message is injected; (R7) every flush generation of the persister completes (callbacks run, callbacksDone closed) on every exit of flushNow; (R8) no send on the node error channel reachable from a persister flush callback can block (non-blocking select on a buffered channel), so the final flush after the node stopped cannot hang Persister.Wait / stop-and-wait.",
+		ID:          "C06",
+		Run:         runC06,
+		Explanation: "Decides the structural clauses of a draining graceful stop: (R1) v1 source and destination nodes register, on the Open success edge, a deferred teardown that waits for all open messages first (destination: stop → wait → teardown), every tracked message is added to the tracker before it is sent on, and status handlers run newest-first so the tracker's Done is the last step of an ack; (R2) every Open has its Close/Teardown on all exits (DLQ handler, processor node, v2 worker rollback, idempotent source teardown under its mutex); (R3) StopAndWait = Stop[ok] → WaitPipeline[ok] → WaitPersisted → nil in both engines; (R4) v2 Worker.Stop takes the processing lock before arming the stop flag and tearing the source down, and a batch is discarded only after the lock was acquired; (R5 = C02.R7) Source.Teardown's flush → drain → stop order; (R6) the stop position is fetched and recorded before the stop control message is injected; (R7) every flush generation of the persister completes (callbacks run, callbacksDone closed) on every exit of flushNow; (R8) no send on the node error channel reachable from a persister flush callback can block (non-blocking select on a buffered channel), so the final flush after the node stopped cannot hang Persister.Wait / stop-and-wait; (R9) the v1 fan-in reports end-of-stream only once every input channel is closed, so records held upstream of it are still forwarded during a drain.",
 		NotDecided:  []string{"that the drain terminates in general (liveness beyond R7)", "timing of debounce timers", "plugin behaviour"},
 		Assumptions: []string{"sync.WaitGroup, rollback.R (Append/Skip/Execute) semantics", "deferred functions run in LIFO order on every exit"},
 	})
@@ -28,6 +28,7 @@ func runC06(c *Ctx) {
 	c06R6(c)
 	c06R7(c)
 	c06R8(c)
+	c06R9(c)
 }
 
 // deferredClosures returns the defer instructions of fn whose deferred function
@@ -475,20 +476,23 @@ func c06R7(c *Ctx) {
 		}
 		return false
 	}
-	g := kit.NewGates()
-	for _, b := range fn.Blocks {
-		for _, in := range b.Instrs {
-			switch x := in.(type) {
-			case *ssa.Go:
-				if mc, ok := x.Call.Value.(*ssa.MakeClosure); ok && closes(mc.Fn.(*ssa.Function), cbF) {
-					g.AddInstr(in, "go func(){ cbWg.Wait(); close(callbacksDone) }()")
-				}
-			case *ssa.Call:
-				if bi, ok := x.Call.Value.(*ssa.Builtin); ok && bi.Name() == "close" && kit.IsFieldLoad(x.Call.Args[0], cbF) {
-					g.AddInstr(in, "close(callbacksDone)")
-				}
+	isCloser := func(in ssa.Instruction) bool {
+		switch x := in.(type) {
+		case *ssa.Go:
+			if mc, ok := x.Call.Value.(*ssa.MakeClosure); ok && closes(mc.Fn.(*ssa.Function), cbF) {
+				return true
+			}
+		case *ssa.Call:
+			if bi, ok := x.Call.Value.(*ssa.Builtin); ok && bi.Name() == "close" && kit.IsFieldLoad(x.Call.Args[0], cbF) {
+				return true
 			}
 		}
+		return false
+	}
+	g := kit.NewGates()
+	// the closer goroutine itself, or a call to a helper that starts it on all of its paths
+	for _, in := range kit.GateInstrs(fn, isCloser, 2) {
+		g.AddInstr(in, "go func(){ cbWg.Wait(); close(callbacksDone) }()")
 	}
 	rets := kit.Returns(fn)
 	var targets []ssa.Instruction
@@ -643,5 +647,38 @@ func c06R8(c *Ctx) {
 			c.R.Check(!kit.IsIntConst(mk.Size, 0), r, "Instance.Connector: errs is buffered", c.Pos(mk.Pos()), "buffered", "errs is created unbuffered: the non-blocking report of a flush failure would be dropped whenever the node is not receiving at that instant", true)
 		}
 		c.R.Check(n == 2, r, "Instance.Connector: creates both errs channels", c.Pos(fn.Pos()), "2", "expected the errs channels of Source and Destination to be created in Instance.Connector", false)
+	}
+}
+
+// c06R9: the v1 fan-in keeps forwarding until every input is closed.
+func c06R9(c *Ctx) {
+	r := c.R.Rule("R9", "K3 fan-in drains every input: FaninNode.trigger reports end-of-stream (nil message, nil error) only on the edge where no input channel is left", 1)
+	fn := c.SSA(r, pStream, "(*FaninNode).trigger")
+	if fn == nil {
+		return
+	}
+	n := 0
+	for _, lit := range kit.WithAnon(fn)[1:] {
+		isChanSliceLen := func(v ssa.Value) bool {
+			return kit.IsLenOf(v, func(x ssa.Value) bool {
+				s, ok := x.Type().Underlying().(*types.Slice)
+				if !ok {
+					return false
+				}
+				_, isChan := s.Elem().Underlying().(*types.Chan)
+				return isChan
+			})
+		}
+		g := kit.NewGates().AddEdges(kit.RangeEdges(lit, isChanSliceLen, 0, 0), "len(in) == 0")
+		for _, ret := range kit.Returns(lit) {
+			if len(ret.Results) != 2 || !kit.IsNilConst(kit.RetVal(ret, 0)) || !kit.IsNilConst(kit.RetVal(ret, 1)) {
+				continue
+			}
+			n++
+			c.Dominated(r, "FaninNode.trigger: end-of-stream only when no input is left", []ssa.Instruction{ret}, g, "the len(remaining inputs) == 0 edge")
+		}
+	}
+	if n == 0 {
+		c.R.Fail(r, "FaninNode.trigger: end-of-stream return", c.Pos(fn.Pos()), "no `return nil, nil` found in the trigger closure")
 	}
 }
